@@ -9,7 +9,7 @@ fn main() {
     let a = args();
     let mut s = Session::new(&a, "C03", COQ_HEADER, COQ_CASE_TY, COQ_CHECKER);
     s.shard_size = 120;
-    s.rule = "corpus (old witnesses D6, D7, D8, D21, suspend/bottom 96a75c4, bottom println 951c29f, always-refusing limiter, every drop order of three bars) + log-heavy random histories (println of the MultiProgress and of members, suspend, clear, interleaved with updates, finishes, drops in every order, removals) on targets with refresh rates 1/20/255 Hz and bursts of zero-gap updates so that most ordinary draws are skipped, plus unlimited targets; top alignment and (one third) bottom alignment; non-trivial = at least two log emissions and one skipped draw or one drop; distinct = distinct case text".into();
+    s.rule = "corpus (open-finding witness D28 empty closure line after a text-only draw first, old witnesses D6, D7, D8, D21, suspend/bottom 96a75c4, bottom println 951c29f, always-refusing limiter, every drop order of three bars) + log-heavy random histories (println of the MultiProgress and of members, suspend, clear, interleaved with updates, finishes, drops in every order, removals) on targets with refresh rates 1/20/255 Hz and bursts of zero-gap updates so that most ordinary draws are skipped, plus unlimited targets; top alignment and (one third) bottom alignment; + one direct height-cut witness (D14 on a 3x1 terminal, counted); non-trivial = at least two log emissions and one skipped draw or one drop; distinct = distinct case text".into();
     let mut r = Rng::new(a.seed);
     let n = if a.thorough { 6000 } else if a.extended { 3000 } else { 500 };
     let mut cases = corpus();
@@ -101,6 +101,10 @@ fn corpus() -> Vec<Case> {
     let ms = 1_000_000u64;
     let abc = || vec![b(t("A"), Fin::AndLeave), b(t("B"), Fin::AndLeave), b(t("C"), Fin::AndLeave)];
     let mut v = vec![
+        // open finding `empty-line-after-text-only-draw-swallowed` (D28; Coq witness
+        // C03_empty_line_swallowed_refuted), FIRST so that its KNOWN-FINDING line is stable: a
+        // text-only draw that fills the row exactly, then a suspend closure whose first line is empty
+        mk(5, None, abc(), vec![(0, Op::MPrintln("hello".into())), (ms, Op::MSuspend(vec!["".into()])), (2 * ms, Op::MPrintln("x".into()))]),
         // D6: refused draws while the head member is a zombie, then println (fixed by 7be6e32)
         mk(20, Some(1), abc(), {
             let mut v = vec![
